@@ -1,0 +1,921 @@
+//! Simulation layer and facade used by the external verification harness.
+//!
+//! Compiled only with the cargo feature `verif-hooks`. Nothing in here changes
+//! the behaviour of a thread that has not been attached to a [`World`]: every
+//! entry point first checks the thread-local binding and falls back to the
+//! real clock / interface table / socket otherwise.
+//!
+//! * [`World`]: virtual clock, per-host interface tables, per-daemon ingress
+//!   queues, captured egress and the per-iteration gate of the run loop.
+//! * [`PktInfoUdpSocket`]: stand-in with the method set the daemon uses.
+//! * facade: re-exports / thin wrappers of crate-private codec items.
+
+use if_addrs::Interface;
+use socket2::{Domain, SockAddr};
+use socket_pktinfo::PktInfo;
+use std::cell::RefCell;
+use std::collections::{HashMap, HashSet, VecDeque};
+use std::io;
+use std::net::{IpAddr, Ipv4Addr, Ipv6Addr, SocketAddr};
+use std::sync::{Arc, Condvar, Mutex, MutexGuard};
+use std::time::Duration;
+
+pub use if_addrs;
+
+// ---------------------------------------------------------------------------
+// World
+// ---------------------------------------------------------------------------
+
+/// One datagram the daemon handed to its socket.
+#[derive(Clone, Debug)]
+pub struct Egress {
+    /// virtual time of the send
+    pub t: u64,
+    pub daemon: usize,
+    /// loop iteration (gate passes) of that daemon when the send happened
+    pub iteration: u64,
+    pub v4: bool,
+    pub dest: SocketAddr,
+    /// interface index a kernel would have used, if one can be determined
+    pub out_if: Option<u32>,
+    pub bytes: Vec<u8>,
+}
+
+struct Ingress {
+    bytes: Vec<u8>,
+    if_index: u32,
+    src: SocketAddr,
+    dst: IpAddr,
+}
+
+#[derive(Default)]
+struct DaemonSim {
+    host: usize,
+    ingress_v4: VecDeque<Ingress>,
+    ingress_v6: VecDeque<Ingress>,
+    mcast_if_v4: Option<Ipv4Addr>,
+    mcast_if_v6: Option<u32>,
+    members_v4: HashSet<Ipv4Addr>,
+    members_v6: HashSet<u32>,
+    permits: u64,
+    free_run: bool,
+    at_gate: bool,
+    wake: Option<u64>,
+    pending_cmds: usize,
+    iterations: u64,
+    dead: bool,
+    panicked: bool,
+}
+
+#[derive(Default)]
+struct Inner {
+    now: u64,
+    seed: u64,
+    hosts: Vec<Vec<Interface>>,
+    daemons: Vec<DaemonSim>,
+    egress: Vec<Egress>,
+}
+
+/// State of a daemon as seen by the harness after a step.
+#[derive(Clone, Debug, PartialEq, Eq)]
+pub enum Parked {
+    /// parked at the gate; the wake-up it asked for (absolute virtual ms) and
+    /// the number of commands still queued in its channel
+    AtGate { wake: Option<u64>, pending_cmds: usize },
+    /// the daemon thread has ended (returned or unwound)
+    Dead { panicked: bool },
+    /// did not park within the real-time limit
+    Timeout,
+}
+
+#[derive(Default)]
+pub struct World {
+    inner: Mutex<Inner>,
+    cv: Condvar,
+}
+
+#[derive(Clone)]
+struct Binding {
+    world: Arc<World>,
+    host: usize,
+    daemon: Option<usize>,
+}
+
+thread_local! {
+    static CURRENT: RefCell<Option<Binding>> = RefCell::new(None);
+}
+
+static REGISTRY: Mutex<Option<HashMap<SocketAddr, (Arc<World>, usize)>>> = Mutex::new(None);
+
+impl World {
+    pub fn new(start_millis: u64, seed: u64) -> Arc<World> {
+        let w = World::default();
+        {
+            let mut g = w.lock();
+            g.now = start_millis;
+            g.seed = seed;
+        }
+        Arc::new(w)
+    }
+
+    fn lock(&self) -> MutexGuard<'_, Inner> {
+        match self.inner.lock() {
+            Ok(g) => g,
+            Err(p) => p.into_inner(),
+        }
+    }
+
+    /// Adds a simulated host with its OS interface table; returns the host id.
+    pub fn add_host(&self, interfaces: Vec<Interface>) -> usize {
+        let mut g = self.lock();
+        g.hosts.push(interfaces);
+        g.hosts.len() - 1
+    }
+
+    pub fn set_interfaces(&self, host: usize, interfaces: Vec<Interface>) {
+        self.lock().hosts[host] = interfaces;
+    }
+
+    pub fn interfaces_of(&self, host: usize) -> Vec<Interface> {
+        self.lock().hosts[host].clone()
+    }
+
+    /// Binds the calling thread to `host` of this world: the clock, the
+    /// interface table and every daemon created from this thread are simulated.
+    pub fn enter(self: &Arc<World>, host: usize) {
+        CURRENT.with(|c| {
+            *c.borrow_mut() = Some(Binding {
+                world: self.clone(),
+                host,
+                daemon: None,
+            })
+        });
+    }
+
+    /// Unbinds the calling thread.
+    pub fn leave() {
+        CURRENT.with(|c| *c.borrow_mut() = None);
+    }
+
+    pub fn now(&self) -> u64 {
+        self.lock().now
+    }
+
+    pub fn set_now(&self, t: u64) {
+        self.lock().now = t;
+    }
+
+    pub fn daemon_count(&self) -> usize {
+        self.lock().daemons.len()
+    }
+
+    /// Queues a datagram for daemon `d`, as received on `if_index`.
+    pub fn inject(
+        &self,
+        d: usize,
+        v4: bool,
+        if_index: u32,
+        src: SocketAddr,
+        dst: Option<IpAddr>,
+        bytes: Vec<u8>,
+    ) {
+        let dst = dst.unwrap_or(if v4 {
+            IpAddr::V4(Ipv4Addr::new(224, 0, 0, 251))
+        } else {
+            IpAddr::V6(Ipv6Addr::new(0xff02, 0, 0, 0, 0, 0, 0, 0xfb))
+        });
+        let mut g = self.lock();
+        let item = Ingress {
+            bytes,
+            if_index,
+            src,
+            dst,
+        };
+        if v4 {
+            g.daemons[d].ingress_v4.push_back(item);
+        } else {
+            g.daemons[d].ingress_v6.push_back(item);
+        }
+    }
+
+    pub fn take_egress(&self) -> Vec<Egress> {
+        std::mem::take(&mut self.lock().egress)
+    }
+
+    /// Multicast memberships the daemon currently holds: (v4 interface
+    /// addresses, v6 interface indexes).
+    pub fn memberships(&self, d: usize) -> (Vec<Ipv4Addr>, Vec<u32>) {
+        let g = self.lock();
+        (
+            g.daemons[d].members_v4.iter().copied().collect(),
+            g.daemons[d].members_v6.iter().copied().collect(),
+        )
+    }
+
+    pub fn iterations(&self, d: usize) -> u64 {
+        self.lock().daemons[d].iterations
+    }
+
+    pub fn is_dead(&self, d: usize) -> bool {
+        self.lock().daemons[d].dead
+    }
+
+    /// Waits (bounded real time) until daemon `d` is parked with no permit
+    /// left, or dead.
+    pub fn wait_parked(&self, d: usize, limit: Duration) -> Parked {
+        let deadline = std::time::Instant::now() + limit;
+        let mut g = self.lock();
+        loop {
+            if g.daemons.len() > d {
+                let s = &g.daemons[d];
+                if s.dead {
+                    return Parked::Dead {
+                        panicked: s.panicked,
+                    };
+                }
+                if s.at_gate && s.permits == 0 && !s.free_run {
+                    return Parked::AtGate {
+                        wake: s.wake,
+                        pending_cmds: s.pending_cmds,
+                    };
+                }
+            }
+            let now = std::time::Instant::now();
+            if now >= deadline {
+                return Parked::Timeout;
+            }
+            let (g2, _) = match self.cv.wait_timeout(g, deadline - now) {
+                Ok(x) => x,
+                Err(p) => p.into_inner(),
+            };
+            g = g2;
+        }
+    }
+
+    /// Grants one permit (= one loop iteration) without waiting.
+    pub fn grant(&self, d: usize) {
+        let mut g = self.lock();
+        g.daemons[d].permits += 1;
+        g.daemons[d].at_gate = false;
+        self.cv.notify_all();
+    }
+
+    /// Lets daemon `d` run exactly one loop iteration and waits for it to park.
+    pub fn step(&self, d: usize, limit: Duration) -> Parked {
+        self.grant(d);
+        self.wait_parked(d, limit)
+    }
+
+    /// Switches daemon `d` to free-run mode: the gate no longer parks, the
+    /// loop polls with a short real timeout (virtual clock unchanged).
+    pub fn set_free_run(&self, d: usize, on: bool) {
+        let mut g = self.lock();
+        g.daemons[d].free_run = on;
+        self.cv.notify_all();
+    }
+}
+
+fn current() -> Option<Binding> {
+    CURRENT.with(|c| c.borrow().clone())
+}
+
+pub(crate) fn now() -> Option<u64> {
+    current().map(|b| b.world.now())
+}
+
+pub(crate) fn interfaces() -> Option<Vec<Interface>> {
+    current().map(|b| b.world.lock().hosts[b.host].clone())
+}
+
+/// Called by `ServiceDaemon::new_with_port` on the creating thread.
+pub(crate) fn bind_world_for(signal_addr: SocketAddr) {
+    if let Some(b) = current() {
+        let id = {
+            let mut g = b.world.lock();
+            g.daemons.push(DaemonSim {
+                host: b.host,
+                ..Default::default()
+            });
+            g.daemons.len() - 1
+        };
+        let mut reg = match REGISTRY.lock() {
+            Ok(g) => g,
+            Err(p) => p.into_inner(),
+        };
+        reg.get_or_insert_with(HashMap::new)
+            .insert(signal_addr, (b.world, id));
+    }
+}
+
+/// Marks the daemon dead in its world when the daemon thread ends.
+pub(crate) struct DaemonGuard(Option<(Arc<World>, usize)>);
+
+impl Drop for DaemonGuard {
+    fn drop(&mut self) {
+        if let Some((w, d)) = self.0.take() {
+            let mut g = w.lock();
+            g.daemons[d].dead = true;
+            g.daemons[d].panicked = std::thread::panicking();
+            w.cv.notify_all();
+        }
+    }
+}
+
+/// Called first thing on the daemon thread.
+pub(crate) fn adopt_world(signal_addr: SocketAddr) -> DaemonGuard {
+    let e = {
+        let mut reg = match REGISTRY.lock() {
+            Ok(g) => g,
+            Err(p) => p.into_inner(),
+        };
+        reg.as_mut().and_then(|m| m.remove(&signal_addr))
+    };
+    match e {
+        Some((w, id)) => {
+            let (host, seed) = {
+                let g = w.lock();
+                (g.daemons[id].host, g.seed)
+            };
+            fastrand::seed(seed.wrapping_mul(0x9E37_79B9_7F4A_7C15).wrapping_add(id as u64));
+            CURRENT.with(|c| {
+                *c.borrow_mut() = Some(Binding {
+                    world: w.clone(),
+                    host,
+                    daemon: Some(id),
+                })
+            });
+            DaemonGuard(Some((w, id)))
+        }
+        None => DaemonGuard(None),
+    }
+}
+
+pub(crate) enum Gate {
+    NoWorld,
+    Step,
+    Free,
+}
+
+/// Blocks at the loop gate until the harness grants an iteration.
+pub(crate) fn gate_wait(timeout: Option<Duration>, pending_cmds: usize) -> Gate {
+    let (w, d) = match current() {
+        Some(Binding {
+            world,
+            daemon: Some(d),
+            ..
+        }) => (world, d),
+        _ => return Gate::NoWorld,
+    };
+    let mut g = w.lock();
+    let now = g.now;
+    g.daemons[d].wake = timeout.map(|t| now + t.as_millis() as u64);
+    g.daemons[d].pending_cmds = pending_cmds;
+    g.daemons[d].at_gate = true;
+    w.cv.notify_all();
+    loop {
+        if g.daemons[d].free_run {
+            g.daemons[d].iterations += 1;
+            return Gate::Free;
+        }
+        if g.daemons[d].permits > 0 {
+            g.daemons[d].permits -= 1;
+            g.daemons[d].iterations += 1;
+            g.daemons[d].at_gate = false;
+            return Gate::Step;
+        }
+        g = match w.cv.wait(g) {
+            Ok(x) => x,
+            Err(p) => p.into_inner(),
+        };
+    }
+}
+
+// ---------------------------------------------------------------------------
+// Socket stand-in
+// ---------------------------------------------------------------------------
+
+/// Socket wrapper with the API subset used by the daemon. Delegates to the
+/// real socket unless the calling thread is a simulated daemon.
+pub(crate) struct PktInfoUdpSocket {
+    real: socket_pktinfo::PktInfoUdpSocket,
+    domain: Domain,
+}
+
+fn subnet_holds(intf: &Interface, ip: &IpAddr) -> bool {
+    crate::service_info::valid_ip_on_intf(ip, &intf.addr)
+}
+
+impl PktInfoUdpSocket {
+    pub fn new(domain: Domain) -> io::Result<Self> {
+        Ok(Self {
+            real: socket_pktinfo::PktInfoUdpSocket::new(domain)?,
+            domain,
+        })
+    }
+
+    fn sim(&self) -> Option<(Arc<World>, usize, usize)> {
+        match current() {
+            Some(Binding {
+                world,
+                host,
+                daemon: Some(d),
+            }) => Some((world, host, d)),
+            _ => None,
+        }
+    }
+
+    pub fn domain(&self) -> Domain {
+        self.domain
+    }
+
+    pub fn set_reuse_address(&self, v: bool) -> io::Result<()> {
+        self.real.set_reuse_address(v)
+    }
+
+    #[cfg(unix)]
+    pub fn set_reuse_port(&self, v: bool) -> io::Result<()> {
+        self.real.set_reuse_port(v)
+    }
+
+    pub fn set_nonblocking(&self, v: bool) -> io::Result<()> {
+        self.real.set_nonblocking(v)
+    }
+
+    pub fn bind(&self, addr: &SockAddr) -> io::Result<()> {
+        if self.sim().is_some() {
+            return Ok(());
+        }
+        self.real.bind(addr)
+    }
+
+    pub fn try_clone_std(&self) -> io::Result<std::net::UdpSocket> {
+        self.real.try_clone_std()
+    }
+
+    pub fn join_multicast_v4(&self, a: &Ipv4Addr, i: &Ipv4Addr) -> io::Result<()> {
+        if let Some((w, _, d)) = self.sim() {
+            w.lock().daemons[d].members_v4.insert(*i);
+            return Ok(());
+        }
+        self.real.join_multicast_v4(a, i)
+    }
+
+    pub fn leave_multicast_v4(&self, a: &Ipv4Addr, i: &Ipv4Addr) -> io::Result<()> {
+        if let Some((w, _, d)) = self.sim() {
+            w.lock().daemons[d].members_v4.remove(i);
+            return Ok(());
+        }
+        self.real.leave_multicast_v4(a, i)
+    }
+
+    pub fn join_multicast_v6(&self, a: &Ipv6Addr, i: u32) -> io::Result<()> {
+        if let Some((w, _, d)) = self.sim() {
+            w.lock().daemons[d].members_v6.insert(i);
+            return Ok(());
+        }
+        self.real.join_multicast_v6(a, i)
+    }
+
+    pub fn leave_multicast_v6(&self, a: &Ipv6Addr, i: u32) -> io::Result<()> {
+        if let Some((w, _, d)) = self.sim() {
+            w.lock().daemons[d].members_v6.remove(&i);
+            return Ok(());
+        }
+        self.real.leave_multicast_v6(a, i)
+    }
+
+    pub fn set_multicast_if_v4(&self, i: &Ipv4Addr) -> io::Result<()> {
+        if let Some((w, h, d)) = self.sim() {
+            let mut g = w.lock();
+            if g.hosts[h].iter().any(|x| x.ip() == IpAddr::V4(*i)) {
+                g.daemons[d].mcast_if_v4 = Some(*i);
+                return Ok(());
+            }
+            return Err(io::Error::from(io::ErrorKind::AddrNotAvailable));
+        }
+        self.real.set_multicast_if_v4(i)
+    }
+
+    pub fn set_multicast_if_v6(&self, i: u32) -> io::Result<()> {
+        if let Some((w, h, d)) = self.sim() {
+            let mut g = w.lock();
+            if g.hosts[h]
+                .iter()
+                .any(|x| x.index == Some(i) && x.ip().is_ipv6())
+            {
+                g.daemons[d].mcast_if_v6 = Some(i);
+                return Ok(());
+            }
+            return Err(io::Error::from(io::ErrorKind::AddrNotAvailable));
+        }
+        self.real.set_multicast_if_v6(i)
+    }
+
+    pub fn set_multicast_loop_v4(&self, v: bool) -> io::Result<()> {
+        if self.sim().is_some() {
+            return Ok(());
+        }
+        self.real.set_multicast_loop_v4(v)
+    }
+
+    pub fn set_multicast_loop_v6(&self, v: bool) -> io::Result<()> {
+        if self.sim().is_some() {
+            return Ok(());
+        }
+        self.real.set_multicast_loop_v6(v)
+    }
+
+    pub fn set_multicast_ttl_v4(&self, v: u32) -> io::Result<()> {
+        if self.sim().is_some() {
+            return Ok(());
+        }
+        self.real.set_multicast_ttl_v4(v)
+    }
+
+    pub fn set_multicast_hops_v6(&self, v: u32) -> io::Result<()> {
+        if self.sim().is_some() {
+            return Ok(());
+        }
+        self.real.set_multicast_hops_v6(v)
+    }
+
+    pub fn send_to(&self, buf: &[u8], addr: &SockAddr) -> io::Result<usize> {
+        if let Some((w, h, d)) = self.sim() {
+            let mut g = w.lock();
+            let dest = match addr.as_socket() {
+                Some(a) => a,
+                None => return Err(io::Error::from(io::ErrorKind::InvalidInput)),
+            };
+            let v4 = self.domain == Domain::IPV4;
+            let multicast = dest.ip().is_multicast();
+            let out_if = if v4 {
+                if multicast {
+                    let ip = g.daemons[d].mcast_if_v4;
+                    g.hosts[h]
+                        .iter()
+                        .find(|x| Some(x.ip()) == ip.map(IpAddr::V4))
+                        .and_then(|x| x.index)
+                } else {
+                    g.hosts[h]
+                        .iter()
+                        .find(|x| subnet_holds(x, &dest.ip()))
+                        .and_then(|x| x.index)
+                }
+            } else {
+                match dest {
+                    SocketAddr::V6(s) if s.scope_id() != 0 => Some(s.scope_id()),
+                    _ if multicast => g.daemons[d].mcast_if_v6,
+                    _ => g.hosts[h]
+                        .iter()
+                        .find(|x| subnet_holds(x, &dest.ip()))
+                        .and_then(|x| x.index),
+                }
+            };
+            let t = g.now;
+            let iteration = g.daemons[d].iterations;
+            g.egress.push(Egress {
+                t,
+                daemon: d,
+                iteration,
+                v4,
+                dest,
+                out_if,
+                bytes: buf.to_vec(),
+            });
+            return Ok(buf.len());
+        }
+        self.real.send_to(buf, addr)
+    }
+
+    pub fn recv(&self, buf: &mut [u8]) -> io::Result<(usize, PktInfo)> {
+        if let Some((w, _, d)) = self.sim() {
+            let mut g = w.lock();
+            let q = if self.domain == Domain::IPV4 {
+                &mut g.daemons[d].ingress_v4
+            } else {
+                &mut g.daemons[d].ingress_v6
+            };
+            return match q.pop_front() {
+                None => Err(io::Error::from(io::ErrorKind::WouldBlock)),
+                Some(p) => {
+                    // like a kernel: the datagram is cut to the buffer size
+                    let n = p.bytes.len().min(buf.len());
+                    buf[..n].copy_from_slice(&p.bytes[..n]);
+                    Ok((
+                        n,
+                        PktInfo {
+                            if_index: p.if_index as u64,
+                            addr_src: p.src,
+                            addr_dst: p.dst,
+                        },
+                    ))
+                }
+            };
+        }
+        self.real.recv(buf)
+    }
+}
+
+// ---------------------------------------------------------------------------
+// Facade: the wire codec and a few pure helpers, no added logic.
+// ---------------------------------------------------------------------------
+
+pub use crate::dns_parser::{
+    DnsEntryExt, DnsIncoming, DnsNSec, DnsOutgoing, DnsPointer, DnsRecord, DnsRecordBox,
+    DnsRecordExt, DnsSrv, DnsTxt, CLASS_CACHE_FLUSH, CLASS_IN, CLASS_MASK, FLAGS_AA,
+    FLAGS_QR_QUERY, FLAGS_QR_RESPONSE, FLAGS_TC, MAX_MSG_ABSOLUTE,
+};
+use crate::dns_parser::{DnsAddress, RRType};
+use crate::InterfaceId;
+
+/// Plain-data view of a decoded or constructed record.
+#[derive(Clone, Debug, PartialEq, Eq)]
+pub struct RecordView {
+    pub name: String,
+    pub ty: u16,
+    pub class: u16,
+    pub flush: bool,
+    pub ttl: u32,
+    pub created: u64,
+    pub expires: u64,
+    pub refresh: u64,
+    /// PTR/CNAME alias, SRV target, NSEC next domain
+    pub target: Option<String>,
+    /// SRV priority, weight, port
+    pub srv: Option<(u16, u16, u16)>,
+    /// TXT text, address octets, NSEC type bitmap
+    pub bytes: Option<Vec<u8>>,
+    /// Debug print of the rdata for the kinds not covered above (HINFO)
+    pub other: Option<String>,
+}
+
+pub fn record_view(r: &dyn DnsRecordExt) -> RecordView {
+    let rec = r.get_record();
+    let mut v = RecordView {
+        name: r.get_name().to_string(),
+        ty: r.get_type() as u16,
+        class: r.get_class(),
+        flush: r.get_cache_flush(),
+        ttl: rec.get_ttl(),
+        created: rec.get_created(),
+        expires: rec.get_expire_time(),
+        refresh: rec.get_refresh_time(),
+        target: None,
+        srv: None,
+        bytes: None,
+        other: None,
+    };
+    let any = r.any();
+    if let Some(p) = any.downcast_ref::<DnsPointer>() {
+        v.target = Some(p.alias().to_string());
+    } else if let Some(s) = any.downcast_ref::<DnsSrv>() {
+        v.target = Some(s.host().to_string());
+        v.srv = Some((s.priority, s.weight, s.port()));
+    } else if let Some(t) = any.downcast_ref::<DnsTxt>() {
+        v.bytes = Some(t.text().to_vec());
+    } else if let Some(a) = any.downcast_ref::<DnsAddress>() {
+        v.bytes = Some(match a.address().to_ip_addr() {
+            IpAddr::V4(x) => x.octets().to_vec(),
+            IpAddr::V6(x) => x.octets().to_vec(),
+        });
+    } else {
+        v.other = Some(r.rdata_print());
+    }
+    v
+}
+
+/// Sections of a decoded message as plain data: (questions as (name, type,
+/// class-with-unicast-bit), answers, authorities, additionals).
+pub struct MessageView {
+    pub id: u16,
+    pub is_query: bool,
+    pub is_response: bool,
+    pub questions: Vec<(String, u16)>,
+    pub answers: Vec<RecordView>,
+    pub authorities: Vec<RecordView>,
+    pub additionals: Vec<RecordView>,
+}
+
+pub fn decode(data: Vec<u8>, if_name: &str, if_index: u32) -> crate::Result<MessageView> {
+    let msg = DnsIncoming::new(
+        data,
+        InterfaceId {
+            name: if_name.to_string(),
+            index: if_index,
+        },
+    )?;
+    Ok(MessageView {
+        id: msg.id(),
+        is_query: msg.is_query(),
+        is_response: msg.is_response(),
+        questions: msg
+            .questions()
+            .iter()
+            .map(|q| (q.entry_name().to_string(), q.entry_type() as u16))
+            .collect(),
+        answers: msg.answers().iter().map(|r| record_view(r.as_ref())).collect(),
+        authorities: msg
+            .authorities()
+            .iter()
+            .map(|r| record_view(r.as_ref()))
+            .collect(),
+        additionals: msg
+            .additionals()
+            .iter()
+            .map(|r| record_view(r.as_ref()))
+            .collect(),
+    })
+}
+
+pub fn rr_type(ty: u16) -> Option<RRType> {
+    RRType::from_u16(ty)
+}
+
+pub fn address_record(name: &str, class: u16, ttl: u32, ip: IpAddr, if_name: &str, if_index: u32) -> DnsRecordBox {
+    DnsAddress::new(
+        name,
+        crate::dns_parser::ip_address_rr_type(&ip),
+        class,
+        ttl,
+        ip,
+        InterfaceId {
+            name: if_name.to_string(),
+            index: if_index,
+        },
+    )
+    .boxed()
+}
+
+pub fn pointer_record(name: &str, class: u16, ttl: u32, alias: &str) -> DnsRecordBox {
+    DnsPointer::new(name, RRType::PTR, class, ttl, alias.to_string()).boxed()
+}
+
+pub fn srv_record(name: &str, class: u16, ttl: u32, prio: u16, weight: u16, port: u16, host: &str) -> DnsRecordBox {
+    DnsSrv::new(name, class, ttl, prio, weight, port, host.to_string()).boxed()
+}
+
+pub fn txt_record(name: &str, class: u16, ttl: u32, text: Vec<u8>) -> DnsRecordBox {
+    DnsTxt::new(name, class, ttl, text).boxed()
+}
+
+/// `DnsOutgoing::add_additional_answer` takes `impl DnsRecordExt`; this adds a
+/// boxed record to the chosen section: 1 answer, 2 authority, 3 additional.
+pub fn add_boxed(out: &mut DnsOutgoing, section: u8, rec: DnsRecordBox) {
+    struct Wrap(DnsRecordBox);
+    impl std::fmt::Debug for Wrap {
+        fn fmt(&self, f: &mut std::fmt::Formatter<'_>) -> std::fmt::Result {
+            self.0.fmt(f)
+        }
+    }
+    impl DnsRecordExt for Wrap {
+        fn get_record(&self) -> &DnsRecord {
+            self.0.get_record()
+        }
+        fn get_record_mut(&mut self) -> &mut DnsRecord {
+            self.0.get_record_mut()
+        }
+        fn write(&self, packet: &mut crate::dns_parser::DnsOutPacket) {
+            self.0.write(packet)
+        }
+        fn any(&self) -> &dyn std::any::Any {
+            self.0.any()
+        }
+        fn matches(&self, other: &dyn DnsRecordExt) -> bool {
+            self.0.matches(other)
+        }
+        fn rrdata_match(&self, other: &dyn DnsRecordExt) -> bool {
+            self.0.rrdata_match(other)
+        }
+        fn compare_rdata(&self, other: &dyn DnsRecordExt) -> std::cmp::Ordering {
+            self.0.compare_rdata(other)
+        }
+        fn rdata_print(&self) -> String {
+            self.0.rdata_print()
+        }
+        fn clone_box(&self) -> DnsRecordBox {
+            self.0.clone_box()
+        }
+        fn boxed(self) -> DnsRecordBox {
+            self.0
+        }
+    }
+    match section {
+        1 => out.add_answer_box(rec),
+        2 => out.add_authority(rec),
+        _ => out.add_additional_answer(Wrap(rec)),
+    }
+}
+
+pub fn decode_txt(txt: &[u8]) -> Vec<(String, Option<Vec<u8>>)> {
+    crate::service_info::decode_txt(txt)
+        .into_iter()
+        .map(|p| (p.key().to_string(), p.val().map(|v| v.to_vec())))
+        .collect()
+}
+
+pub fn generate_txt(info: &crate::ServiceInfo) -> Vec<u8> {
+    info.generate_txt()
+}
+
+pub fn name_change(original: &str) -> String {
+    crate::service_daemon::verif_export::name_change(original)
+}
+
+pub fn hostname_change(original: &str) -> String {
+    crate::service_daemon::verif_export::hostname_change(original)
+}
+
+/// Verdict of the simultaneous-probe comparison: `true` iff a probe holding
+/// `mine` for `name` (already started) yields to the authority section of the
+/// probe query `query` (raw datagram).
+pub fn tiebreak_loses(mine: Vec<DnsRecordBox>, query: Vec<u8>, name: &str) -> crate::Result<bool> {
+    let msg = DnsIncoming::new(query, InterfaceId::default())?;
+    let now = crate::current_time_millis();
+    let mut probe = crate::service_info::Probe::new(now.saturating_sub(10));
+    for r in mine {
+        probe.insert_record(r);
+    }
+    let before = probe.start_time;
+    probe.tiebreaking(&msg, name);
+    Ok(probe.start_time != before)
+}
+
+/// A stand-alone record cache (the daemon's `DnsCache`) for component-level
+/// replay of the lifetime and cache-flush rules.
+pub struct CacheFacade {
+    cache: crate::dns_cache::DnsCache,
+    intf: crate::service_info::MyIntf,
+}
+
+impl CacheFacade {
+    pub fn new(if_name: &str, if_index: u32) -> Self {
+        Self {
+            cache: crate::dns_cache::DnsCache::new(),
+            intf: crate::service_info::MyIntf {
+                name: if_name.to_string(),
+                index: if_index,
+                addrs: HashSet::new(),
+            },
+        }
+    }
+
+    /// Returns `None` if the record was not stored, else `Some(is_new)` and
+    /// the timers the cache asked for.
+    pub fn add_or_update(&mut self, rec: DnsRecordBox, is_for_us: bool) -> (Option<bool>, Vec<u64>) {
+        let mut timers = Vec::new();
+        let r = self
+            .cache
+            .add_or_update(&self.intf, rec, &mut timers, is_for_us)
+            .map(|(_, new)| new);
+        (r, timers)
+    }
+
+    pub fn evict(&mut self, now: u64) -> (Vec<(String, String)>, Vec<String>) {
+        let s = self.cache.evict_expired_services(now);
+        let a = self.cache.evict_expired_addr(now);
+        let mut sv: Vec<(String, String)> = s
+            .into_iter()
+            .flat_map(|(t, set)| set.into_iter().map(move |i| (t.clone(), i)))
+            .collect();
+        sv.sort();
+        let mut av: Vec<String> = a.into_keys().collect();
+        av.sort();
+        (sv, av)
+    }
+
+    pub fn counts(&self) -> (usize, usize, usize, usize, usize) {
+        (
+            self.cache.ptr_count(),
+            self.cache.srv_count(),
+            self.cache.txt_count(),
+            self.cache.addr_count(),
+            self.cache.nsec_count(),
+        )
+    }
+
+    pub fn ptr_records(&self, ty_domain: &str) -> Vec<RecordView> {
+        self.cache
+            .get_ptr(ty_domain)
+            .map(|v| v.iter().map(|r| record_view(r.record.as_ref())).collect())
+            .unwrap_or_default()
+    }
+
+    pub fn addr_records(&self, host: &str) -> Vec<RecordView> {
+        self.cache
+            .get_addr(host)
+            .map(|v| v.iter().map(|r| record_view(r.record.as_ref())).collect())
+            .unwrap_or_default()
+    }
+
+    pub fn known_answers(&self, name: &str, ty: u16, now: u64) -> Vec<RecordView> {
+        match RRType::from_u16(ty) {
+            Some(t) => self
+                .cache
+                .get_known_answers(name, t, now)
+                .into_iter()
+                .map(|r| record_view(r.record.as_ref()))
+                .collect(),
+            None => Vec::new(),
+        }
+    }
+}
